@@ -41,7 +41,7 @@ func drawC03c(t *rapid.T) *c03cScenario {
 	for i := range d.Steps {
 		e := ""
 		if dpct(t, 45, fmt.Sprintf("c03c_extra%d", i)) {
-			e = rapid.SampledFrom([]string{"staticProvision", "staticDeprovision", "loseClaim", "loseClaim", "loseClaim", "scaleUp", "scaleDown", "interleave", "interleaveFailCreate", "interleaveFailCreate", "lostThenInterleaveFailCreate", "lostThenInterleaveFailCreate", "provisionFailCreate"}).Draw(t, fmt.Sprintf("c03c_extraKind%d", i))
+			e = rapid.SampledFrom([]string{"staticProvision", "staticDeprovision", "loseClaim", "loseClaim", "loseClaim", "scaleUp", "scaleDown", "loseUnlaunchedClaim", "interleave", "interleaveFailCreate", "interleaveFailCreate", "lostThenInterleaveFailCreate", "lostThenInterleaveFailCreate", "provisionFailCreate"}).Draw(t, fmt.Sprintf("c03c_extraKind%d", i))
 		}
 		s.Extra = append(s.Extra, e)
 	}
@@ -84,8 +84,14 @@ func execC03c(cs *c03cScenario, c *ev.Ctx) {
 	r := newDRun(s, c)
 	w := r.b.W
 	devices := deviceallocation.NewController(w.Client)
-	staticProvision := staticprovisioning.NewController(w.Client, w.Cluster, w.Recorder, w.Provider, r.b.Provisioner, w.Clock, devices, virtualpods.NewVirtualPodCache(w.Client))
-	staticDeprovision := staticdeprovisioning.NewController(w.Client, w.Cluster, w.Provider, w.Clock, w.Recorder)
+	var staticProvision *staticprovisioning.Controller
+	var staticDeprovision *staticdeprovisioning.Controller
+	// (re)built after every restart: the controllers hold the cluster state and the provisioner of their process
+	buildStatic := func() {
+		staticProvision = staticprovisioning.NewController(w.Client, w.Cluster, w.Recorder, w.Provider, r.b.Provisioner, w.Clock, devices, virtualpods.NewVirtualPodCache(w.Client))
+		staticDeprovision = staticdeprovisioning.NewController(w.Client, w.Cluster, w.Provider, w.Clock, w.Recorder)
+	}
+	buildStatic()
 	poolNames := make([]string, 0, len(r.b.Pools))
 	for n := range r.b.Pools {
 		poolNames = append(poolNames, n)
@@ -204,6 +210,18 @@ func execC03c(cs *c03cScenario, c *ev.Ctx) {
 				}
 			}
 			w.Sync()
+		case "loseUnlaunchedClaim":
+			// static provisioning has just created NodeClaims; one of them is removed before it was launched
+			provisionAll(false)
+			for _, nc := range w.ListNodeClaims() {
+				if np := r.b.Pools[nc.Labels[v1.NodePoolLabelKey]]; np != nil && np.Spec.Replicas != nil && nc.DeletionTimestamp == nil && nc.Status.ProviderID == "" {
+					nc := nc
+					w.Remove(&nc)
+					c.Class("unlaunched_static_claim_removed")
+					break
+				}
+			}
+			w.Sync()
 		case "loseClaim":
 			// a NodeClaim of a static pool is deleted by somebody (its termination is left to the later steps)
 			for _, nc := range w.ListNodeClaims() {
@@ -285,6 +303,7 @@ func execC03c(cs *c03cScenario, c *ev.Ctx) {
 				r.finishDeleting()
 			case "restart":
 				r.restart()
+				buildStatic()
 			}
 		}
 		for pool, lim := range limits {
@@ -297,6 +316,41 @@ func execC03c(cs *c03cScenario, c *ev.Ctx) {
 			}
 			if n > lim {
 				c.Violate("static-pool-over-node-limit", "step %d (%s): static pool %s holds %d NodeClaims that are not being deleted, its node limit is %d (replicas %d)", i, st.Kind, pool, n, lim, *r.b.Pools[pool].Spec.Replicas)
+			}
+		}
+	}
+	// ---- settle: with no further third-party events, every controller gets its turn a few times: replacements
+	// initialise, the queue finishes its commands, deleted nodes terminate, static provisioning and deprovisioning
+	// reconcile. Every judged static pool then holds exactly its replica count.
+	for round := 0; round < 6; round++ {
+		r.initReplacements()
+		r.runQueue()
+		r.finishDeleting()
+		provisionAll(false)
+		for _, n := range poolNames {
+			if np := getPool(n); np != nil && np.Spec.Replicas != nil {
+				w.Quiet(func() { _, _ = staticDeprovision.Reconcile(w.Ctx, np) })
+			}
+		}
+		w.Sync()
+	}
+	// nodes that the generated world marks for deletion without a command that owns the mark stay marked for good
+	orphanMark := map[string]bool{}
+	for _, nd := range s.World.Nodes {
+		if nd.Marked {
+			orphanMark[nd.Pool] = true
+		}
+	}
+	if len(r.queue.GetCommands()) == 0 {
+		for _, pool := range poolNames {
+			np := getPool(pool)
+			if np == nil || np.Spec.Replicas == nil || !judged[pool] || orphanMark[pool] {
+				continue
+			}
+			c.Class("settled_pool_judged")
+			if n := count(pool); n != *np.Spec.Replicas {
+				a, d, p := w.Cluster.NodePoolState.GetNodeCount(pool)
+				c.Violate("static-pool-not-settled-at-replicas", "after the history and 6 quiet rounds of every controller, static pool %s holds %d NodeClaims that are not being deleted, replicas is %d (node limit %d; the pool state counts active=%d deleting=%d pending=%d)", pool, n, *np.Spec.Replicas, limits[pool], a, d, p)
 			}
 		}
 	}
@@ -314,9 +368,9 @@ func execC03c(cs *c03cScenario, c *ev.Ctx) {
 
 var propC03c = ev.Prop[c03cScenario]{
 	ID: "C03", Test: "TestC03c",
-	Rule: "rapid draws a disruption world whose pools are all static (replicas = current size, node limit = replicas + 0..2, drift budget 100% / 50% / 2 / 3), most nodes drifted, and a history of 1-7 steps {disruption reconcile, queue reconcile, replacement initialisation / loss, node termination, clock advance, restart, static provisioning reconcile (optionally with its first NodeClaim create failing), static deprovisioning reconcile, a NodeClaim deleted by a third party, replicas +-1, a disruption reconcile DURING which - at its first API write, when StaticDrift holds its node-count reservation - the static provisioning controller runs (optionally with a failing create)}; the REAL disruption controller (StaticDrift), queue, provisioner, lifecycle, static provisioning and static deprovisioning controllers run; " +
-		"oracle after every step: the NodeClaims of each static pool that are not being deleted number at most the pool's node limit; non-trivial = StaticDrift issued at least one replacement command",
-	Assumptions: []string{"pools that start above their limit are not judged", "interleavings of the two controllers are explored at one point only: the first API write of a disruption pass"},
+	Rule: "rapid draws a disruption world whose pools are all static (replicas = current size, node limit = replicas + 0..2, drift budget 100% / 50% / 2 / 3), most nodes drifted, and a history of 1-7 steps {disruption reconcile, queue reconcile, replacement initialisation / loss, node termination, clock advance, restart, static provisioning reconcile (optionally with its first NodeClaim create failing), static deprovisioning reconcile, a NodeClaim deleted by a third party, a NodeClaim that static provisioning just created removed before it launched, replicas +-1, a disruption reconcile DURING which - at its first API write, when StaticDrift holds its node-count reservation - the static provisioning controller runs (optionally with a failing create)}; the REAL disruption controller (StaticDrift), queue, provisioner, lifecycle, static provisioning and static deprovisioning controllers run; " +
+		"oracle after every step: the NodeClaims of each static pool that are not being deleted number at most the pool's node limit; at the end, after six quiet rounds of every controller (replacements initialise, queue, terminations finish, static provisioning and deprovisioning) and with no command left in the queue, each such pool holds exactly its replica count; non-trivial = StaticDrift issued at least one replacement command",
+	Assumptions: []string{"pools that start above their limit are not judged", "pools with a node the generated world marks for deletion without an owning command are not judged for settling", "interleavings of the two controllers are explored at one point only: the first API write of a disruption pass"},
 	Draw:        drawC03c, Exec: execC03c, ReplayTries: 3,
 }
 
